@@ -4156,6 +4156,181 @@ def spec_hidden_element_nothing(ctx, make_exe):
     return {"function": f.name, "paths": len(outs)}
 
 # ----------------------------------------------------------------------------
+# SPEC: the dispatch of process_dom_node on the element's name.  The name is a *symbolic* pair of atoms (namespace,
+# local name); string_cache packs a name of at most 7 bytes into the atom's u64 itself (tag 1, length, bytes), so
+# the expected table below can be stated on the packed values without trusting anything in the tree under check.
+# Per path the constructor reached is observed (pending / pending_noempty with its closure, the table functions,
+# Nothing, Finished) and the variant each closure builds is taken from the closure's own MIR.
+# ----------------------------------------------------------------------------
+
+def _inline_atom(name):
+    b = name.encode()
+    assert 0 < len(b) <= 7
+    v = 1 | (len(b) << 4)
+    for i, ch in enumerate(b):
+        v |= ch << (8 * (i + 1))
+    return v
+
+
+HTML_NS_ATOM = 2    # NamespaceStaticSet index 0 (the XHTML namespace), static tag 0b10
+
+ELEMENT_TABLE = {
+    "html": ("pending", "Container"), "body": ("pending", "Container"),
+    "link": ("nothing", None), "meta": ("nothing", None), "hr": ("nothing", None), "script": ("nothing", None),
+    "style": ("nothing", None), "head": ("nothing", None),
+    "span": ("pending_noempty", "Container"),
+    "a": ("boxed", "Container"),
+    "em": ("pending", "Em"), "i": ("pending", "Em"), "ins": ("pending", "Em"),
+    "strong": ("pending", "Strong"), "s": ("pending", "Strikeout"), "del": ("pending", "Strikeout"),
+    "code": ("pending", "Code"), "img": ("nothing", None),
+    "h1": ("pending", "Header"), "h2": ("pending", "Header"), "h3": ("pending", "Header"),
+    "h4": ("pending", "Header"), "h5": ("pending", "Header"), "h6": ("pending", "Header"),
+    "p": ("pending_noempty", "Block"), "li": ("pending", "ListItem"), "sup": ("pending", "Sup"),
+    "div": ("pending_noempty", "Div"), "pre": ("pending", "Block"), "br": ("finished", "Break"),
+    "table": ("table_to_render_tree", None), "thead": ("tbody_to_render_tree", None),
+    "tbody": ("tbody_to_render_tree", None), "tfoot": ("tbody_to_render_tree", None),
+    "tr": ("tr_to_render_tree", None), "th": ("td_to_render_tree", None), "td": ("td_to_render_tree", None),
+    "ul": ("pending_noempty", "Ul"), "ol": ("pending_noempty", "Ol"), "dl": ("pending_noempty", "Dl"),
+    "dt": ("pending", "Dt"), "dd": ("pending", "Dd"),
+    # a sample of names without an arm of their own: transparent containers (C13: "span/unknown elements")
+    "b": ("pending_noempty", "Container"), "u": ("pending_noempty", "Container"), "font": ("pending_noempty", "Container"),
+    "center": ("pending_noempty", "Container"), "section": ("pending_noempty", "Container"),
+    "caption": ("pending_noempty", "Container"), "label": ("pending_noempty", "Container"),
+    "small": ("pending_noempty", "Container"), "q": ("pending_noempty", "Container"),
+}
+
+
+def _closure_variant(ctx, make_exe, loc, cache):
+    """RenderNodeInfo variant built by the constructor closure written at `loc` (file:line:col text)."""
+    if loc in cache:
+        return cache[loc]
+    fs = [f for f in ctx.find(r"^process_dom_node::\{closure#\d+\}$") if f.args and loc in f.args[0][1]]
+    variant = None
+    if len(fs) == 1:
+        f = fs[0]
+        exe = make_exe(inline=[r"RenderNode::new_styled$", r"RenderNode::new$"], loop_bound=6)
+        exe.check_obligations = False
+        try:
+            outs = exe.run(f.name, {3: VVec([VOpaque("RenderNode", "child0")])}, State())
+        except PathEnd:
+            outs = []
+        vs = set()
+        for (s2, ret) in outs:
+            val = ret
+            if isinstance(val, VAgg) and val.variant == "Ok":
+                val = val.fields[0]
+            if isinstance(val, VAgg) and val.variant == "Some":
+                node = val.fields[0]
+                if isinstance(node, VAgg) and node.names and "info" in node.names:
+                    info = node.fields[node.names.index("info")]
+                    if isinstance(info, VAgg):
+                        vs.add(info.variant)
+        if len(vs) == 1:
+            variant = vs.pop()
+    cache[loc] = variant
+    return variant
+
+
+def spec_element_dispatch(ctx, make_exe):
+    import summaries
+    orig = summaries.summarize
+    f = the(ctx.find(r"^process_dom_node$"), "process_dom_node")
+    ctx.enums.setdefault("NodeData", ["Document", "Doctype", "Text", "Comment", "Element", "ProcessingInstruction"])
+    exe = make_exe(inline=[r"RenderNode::new_styled$", r"RenderNode::new$"], loop_bound=6)
+    st = State()
+    ns = exe.fresh("u64", "ns_atom")
+    ln = exe.fresh("u64", "local_atom")
+
+    def atom(v):
+        return VAgg("Atom", None, [VAgg("NonZero", None, [VAgg("Inner", None, [v])])])
+    node = VAgg("Node", None, [VOpaque("Cell", "parent"), VOpaque("RefCell", "children"),
+                               VAgg("NodeData::Element", "Element", [VOpaque("QualName", "elname"), VOpaque("RefCell<Vec<Attribute>>", "attrcell"),
+                                                                     VOpaque("RefCell", "tc"), VOpaque("bool", "mx")])])
+    inp = _agg(ctx, "RenderInput", handle=VOpaque("Rc<Node>", "handle"), parent_style=VOpaque("Rc<ComputedStyle>", "parent_style"))
+
+    def summ(exe_, st_, f_, bb_, callee, args, dest_ty):
+        c = callee.strip()
+        if re.search(r"^<Rc<Node> as Clone>::clone$", c):
+            return [(st_, VOpaque("Rc<Node>", "handle_clone"))]
+        if re.search(r"^<Rc<Node> as Deref>::deref$", c):
+            return [(st_, VRef("val", node))]
+        if re.search(r"^<Rc<ComputedStyle> as Deref>::deref$", c):
+            return [(st_, VRef("val", VOpaque("ComputedStyle", "parent")))]
+        if re.search(r"StyleData::computed_style$", c):
+            return [(st_, VOpaque("ComputedStyle", "computed"))]
+        if re.search(r"WithSpec::<css::Display>::val$", c):
+            return [(st_, VAgg("Option::None", "None", []))]
+        if re.search(r"RefCell::<Vec<Attribute>>::borrow$", c):
+            return [(st_, VRef("val", VVec([])))]
+        if re.search(r"^<Ref<'_, Vec<Attribute>> as Deref>::deref$", c) or re.search(r"^<Vec<Attribute> as Deref>::deref$", c):
+            return [(st_, args[0])]
+        if re.search(r"^Option::<Box<ComputedStyle>>::is_some$", c):
+            return [(st_, VBool(z3.BoolVal(False)))]
+        if re.search(r"QualName::expanded$", c):
+            return [(st_, VAgg("ExpandedName", None, [VRef("val", atom(ns)), VRef("val", atom(ln))]))]
+        return orig(exe_, st_, f_, bb_, callee, args, dest_ty)
+    summaries.summarize = summ
+    try:
+        outs = exe.run(f.name, {1: inp, 2: VOpaque("&mut T", "err_out"), 3: VRef("val", VOpaque("HtmlContext", "context"))}, st)
+    finally:
+        summaries.summarize = orig
+    if len(outs) < 20:
+        raise Inconclusive("only %d paths through the dispatch" % len(outs))
+    cache = {}
+    known = [(n, _inline_atom(n)) for n in ELEMENT_TABLE]
+    is_html = ns.e == u64(HTML_NS_ATOM)
+    seen = {}
+    for (s2, ret) in outs:
+        kind, variant = None, None
+        for c in s2.calls:
+            if c[2] != f.name:
+                continue
+            m = re.match(r"(pending|pending_noempty)::<\{closure@([^}]*)\}>$", c[0])
+            if m:
+                kind, variant = m.group(1), _closure_variant(ctx, make_exe, m.group(2), cache)
+                break
+            m = re.match(r"(table_to_render_tree|tbody_to_render_tree|tr_to_render_tree|td_to_render_tree)\b", c[0])
+            if m:
+                kind = m.group(1)
+                break
+            m = re.match(r"Box::<\{closure@([^}]*)\}>::new$", c[0])
+            if m:
+                kind, variant = "boxed", _closure_variant(ctx, make_exe, m.group(1), cache)
+                break
+        if kind is None:
+            val = ret.fields[0] if isinstance(ret, VAgg) and ret.variant == "Ok" else None
+            if isinstance(val, VAgg) and val.variant == "Nothing":
+                kind = "nothing"
+            elif isinstance(val, VAgg) and val.variant == "Finished":
+                kind = "finished"
+                nd = val.fields[0]
+                if isinstance(nd, VAgg) and nd.names and "info" in nd.names and isinstance(nd.fields[nd.names.index("info")], VAgg):
+                    variant = nd.fields[nd.names.index("info")].variant
+            else:
+                raise Inconclusive("a path through the dispatch ends in neither a constructor nor Nothing / Finished")
+        got = (kind, variant)
+        seen[got] = seen.get(got, 0) + 1
+        wrong = []
+        for (name, enc) in known:
+            want = ELEMENT_TABLE[name]
+            okay = (kind == want[0]) if want[1] is None else (got == want)
+            if not okay:
+                wrong.append(enc)
+        if wrong:
+            post(exe, s2, z3.Not(z3.And(is_html, z3.Or(*[ln.e == u64(enc) for enc in wrong]))), f.name,
+                 "the element named by local_atom is converted by %s/%s, which is not what the table of elements says" % got, tag="name")
+        if got != ("pending_noempty", "Container"):
+            # only HTML elements with an arm of their own are anything but a transparent container; names longer than
+            # 7 bytes are static atoms (tag 0b10), whose numbering this spec does not know: they are left out
+            allowed = z3.And(is_html, z3.Or(*([ln.e == u64(enc) for (n_, enc) in known if ELEMENT_TABLE[n_] == got or (ELEMENT_TABLE[n_][1] is None and ELEMENT_TABLE[n_][0] == kind)]
+                                              + [(ln.e & u64(3)) == u64(2)])))
+            post(exe, s2, allowed, f.name, "only the elements listed for %s/%s are converted that way; everything else is a transparent container" % got, tag="other")
+    for want in set(ELEMENT_TABLE.values()):
+        if not any((k == want[0] and (want[1] is None or v == want[1])) for (k, v) in seen):
+            post(exe, st, z3.BoolVal(False), f.name, "no path converts an element by %s/%s" % want, tag="missing")
+    return {"function": f.name, "paths": len(outs), "names": len(known), "kinds": sorted("%s/%s" % k for k in seen)}
+
+# ----------------------------------------------------------------------------
 # SPEC: add_text neither loses, duplicates nor reorders a character that is not whitespace (content of the
 # flushed lines, the current line and the word buffer is tracked as a sequence of element tokens)
 # ----------------------------------------------------------------------------
@@ -4869,6 +5044,17 @@ ALL = [
          bounds="every sequence of 4 (thorough: 5) tokens over {identifier, ( ) [ ] { } ;}, then end of input",
          assumptions=["parse_token delivers the scripted tokens; derived PartialEq on Token compares discriminants for bracket tokens"],
          replay=lambda fd, vals, info: {"harness": "m_at_rule_skip", "values": [[0]]}),
+    Spec("element_dispatch", ["C03", "C13"], spec_element_dispatch,
+         functions=["process_dom_node (Element arm: the match on the expanded name, up to the constructor it selects)",
+                    "process_dom_node::{closure#k} (the variant each constructor closure builds)"],
+         bounds="namespace and local-name atoms are two unconstrained 64-bit values; the expected table covers the 44 names with an arm "
+                "of their own that fit an inline atom (all but blockquote) and 9 sample names without one; no attributes, no ::before/::after content",
+         assumptions=["string_cache packs names of at most 7 bytes inline (tag 1, length in bits 4-7, bytes from bit 8) and the XHTML namespace is "
+                      "static atom 0 (value 2): checked natively by m_element_dispatch on every replay",
+                      "static atoms (names of 8 bytes and more, e.g. blockquote) are outside the claim",
+                      "pending / pending_noempty and the four table functions are observed, not executed (their closures are dom_constructors' subject)"],
+         replay=lambda fd, vals, info: {"harness": "m_element_dispatch",
+                                        "values": [le_bytes(int(vals.get("local_atom", 0)) if fd.tag == "name" else 0, 8)]}),
     Spec("hidden_element_nothing", ["C18"], spec_hidden_element_nothing,
          functions=["process_dom_node (element arm up to the dispatch on the element name)"],
          bounds="one element; its computed display arbitrary",
